@@ -110,9 +110,13 @@ Theorem C11_wire_list_content : forall sup rnd js scid ps,
 Proof. exact wire_list_content. Qed.
 Print Assumptions C11_wire_list_content.
 
-(** fresh per dial: the bytes of a dial depend on the caller's settings at that point, that
-    dial's own draws and its own source connection ID -- not on any other dial of the history *)
-Theorem C11_dial_k_independent : forall st opsA scid oA opsA' stA viewsA opsB oB opsB' stB viewsB,
+(** The bytes of a dial depend on the caller's settings at that point, that dial's own draws and
+    its own source connection ID -- not on any other dial of the history.  BY CONSTRUCTION of the
+    model (audit P2): [UDial.Model.dial] returns the state it was given, which is the repaired
+    dialClientHelloSpec's per-dial copy; that the CODE behaves so is what unit uspecdial ties
+    (monitors spec-untouched / fresh-order, seeds D1, D5), and that the draws of different dials
+    are independent is an input of the model (each dial has its own oracle), not a result. *)
+Theorem C11_dial_k_independent_by_construction : forall st opsA scid oA opsA' stA viewsA opsB oB opsB' stB viewsB,
   wf_spec st -> zlen scid <= maxVarInt8 ->
   run st (opsA ++ ODial scid oA :: opsA') = Some (stA, viewsA) ->
   run st (opsB ++ ODial scid oB :: opsB') = Some (stB, viewsB) ->
@@ -123,16 +127,17 @@ Theorem C11_dial_k_independent : forall st opsA scid oA opsA' stA viewsA opsB oB
     nth_error viewsB (count_dials opsB) = Some (scid, wB) /\
     wExt wA = wExt wB.
 Proof. exact dial_k_independent. Qed.
-Print Assumptions C11_dial_k_independent.
+Print Assumptions C11_dial_k_independent_by_construction.
 
-(** ... and every order of the kept list is available to every dial, whatever came before *)
-Theorem C11_dial_k_any_order : forall st ops1 scid target,
-  wf_spec st -> sRnd (edits st ops1) = true ->
-  Permutation (suppress (sSup (edits st ops1)) (sParams st)) target ->
+(** ... and every order of the kept list is available to a randomised dial.  (About [wire_list];
+    it reaches the k-th dial of a history through C11_dial_k_wire / C11_hdial_k_wire.  Audit P7: the
+    former statement carried two unused hypotheses.) *)
+Theorem C11_wire_list_any_order : forall sup scid ps target,
+  Permutation (suppress sup ps) target ->
   exists js, admissible (length target - 1) js /\
-             wire_list (sSup (edits st ops1)) true js scid (sParams st) = map idval (map (fill scid) target).
-Proof. exact dial_k_any_order. Qed.
-Print Assumptions C11_dial_k_any_order.
+             wire_list sup true js scid ps = map idval (map (fill scid) target).
+Proof. exact wire_list_any_order. Qed.
+Print Assumptions C11_wire_list_any_order.
 
 (** Round 8 (audit P3).  Histories that also contain calls of QUICSpec.TransportParamIDs()
     ([HistoryModel.hop]: dial / set suppression list / set randomize flag / IDs()).  Since the
@@ -182,6 +187,18 @@ Theorem C11_ids_legacy_refuted :
   wire_list [] false [] [] (sParams History.p3_spec) = [(4, [5]); (1, [7]); (9, [3])].
 Proof. exact History.p3_legacy_refuted. Qed.
 Print Assumptions C11_ids_legacy_refuted.
+
+(** Audit P4: WHICH value lands in the placeholder ([filled] above leaves it open).  When the
+    spec has no typed initial_source_connection_id with an explicit value, the list a dial hands
+    to uTLS is the dial list with every typed EMPTY placeholder replaced by the connection's
+    source connection ID; a raw parameter with id 0x0f is left alone (seed C11-c). *)
+Theorem C11_wire_values : forall sup rnd js scid ps v ps' ov,
+  Forall no_explicit ps ->
+  dial sup rnd js scid ps = Some (v, ps', ov) ->
+  ps' = map (fill_typed scid) (dial_list sup rnd js ps) /\
+  vInitialSourceConnectionID v = scid /\ ov = marshal ps'.
+Proof. exact wire_values. Qed.
+Print Assumptions C11_wire_values.
 
 (** the reader inverts the marshaller on every encodable list *)
 Theorem C11_parse_marshal : forall ps, Forall wfp ps -> parse (marshal ps) = Some (map idval ps).
@@ -303,7 +320,11 @@ Print Assumptions C11_fp_frame_types_from_builder.
     from C10_header_fields (pn = c_first, length = peekPnLen of the spec's list); the frame-type
     list from C11_builder_frame_types.  [version] is the negotiated QUIC version (not a spec
     field; constant per dial). *)
-Theorem C11_fp_features_deterministic : forall version c p helloLen plens pn pnLen h fs lf pk dl ix rp ws wss,
+(* Audit P5: version, DCID/SCID length and the token flag on the right-hand side are the model's
+   own configuration inputs (their derivation from the spec is C10's C10_cid_lengths / C10_token);
+   the components with content are the packet-number bytes (C10_header_fields) and the frame
+   set (C11_builder_frame_types); [slice_ok] inside [built_by] stays a hypothesis.  Hence _partial. *)
+Theorem C11_fp_features_deterministic_partial : forall version c p helloLen plens pn pnLen h fs lf pk dl ix rp ws wss,
   ProofsBuilder.builder_ok p ->
   nth_error (UPacker.Model.flight c helloLen plens) 0 = Some (UPacker.Model.DG pn pnLen h fs lf pk dl ix rp) ->
   Forall (ProofsBuilder.built_by p) (ws :: wss) ->
@@ -312,7 +333,7 @@ Theorem C11_fp_features_deterministic : forall version c p helloLen plens pn pnL
           ProofsBuilder.pn_bytes (UPacker.Model.pnLenOf c 0) (UPacker.Model.c_first c),
           dedup (isort (ProofsBuilder.builder_types p)), 0 <? UPacker.Model.c_tokLen c).
 Proof. exact ProofsBuilder.fp_features_deterministic. Qed.
-Print Assumptions C11_fp_features_deterministic.
+Print Assumptions C11_fp_features_deterministic_partial.
 
 (** Round 7.  The simulated dials of unit simfingerprint are replayed by the model
     (USpec/RunFp.v).  The simulation does not seed math/rand, so a randomised dial is accepted
@@ -330,10 +351,14 @@ Proof. exact ProofsFpCase.fp_case_any_draws. Qed.
 Print Assumptions C11_fp_case_any_draws.
 
 (** dialClientHelloSpec's per-dial copies: in every history the k-th dial's key_share entries
-    are the spec's -- groups in order; a GREASE entry and a key the caller supplied with their
-    own bytes; a generated key elsewhere -- its server name is the spec's (or the dial's
+    are the spec's -- groups in order (in the model; on the wire a GREASE group is re-drawn by uTLS
+    per connection, the replay compares groups under [norm16]); a GREASE entry and a key the
+    caller supplied with their own bytes; nothing is stated about generated keys (audit P6: with
+    an empty oracle [gen_keys] even returns the share unkeyed; C02_dial_k_fresh_keys covers the
+    all-generated case) -- its server name is the spec's (or the dial's
     tls.Config name when the spec leaves it empty), and the spec value keeps its key shares,
     server name and parameter list whatever the dials did. *)
+(* the three "spec keeps ..." conjuncts are by construction of the model, see C11_dial_k_independent_by_construction *)
 Theorem C11_dial_k_keys : forall st ops1 scid o ops2 st' views,
   run st (ops1 ++ ODial scid o :: ops2) = Some (st', views) ->
   exists w, nth_error views (count_dials ops1) = Some (scid, w) /\
@@ -530,3 +555,14 @@ Example C11_ex_builtin : (* two Chrome_115 wires: different GREASE draw, order a
   RunFp.builtin_check 0 w1 = true /\ RunFp.builtin_check 0 w2 = true /\ w1 <> w2 /\ RunFp.perm_eqb w1 w2 = false.
 Proof. exact ProofsBuiltin.builtin_example. Qed.
 Print Assumptions C11_ex_builtin.
+
+Example C11_ex_wire_values : (* typed empty placeholder filled, raw 0x0f parameters left alone *)
+  let ps := [P 15 [] false; P 15 [] true; P 15 [9; 9] false; P 4 [1] true] in
+  Forall no_explicit ps /\
+  exists v ov, dial [] false [] [1; 2] ps = Some (v, [P 15 [] false; P 15 [1; 2] true; P 15 [9; 9] false; P 4 [1] true], ov).
+Proof.
+  split.
+  - repeat (apply Forall_cons; [unfold no_explicit, tpid_initialSourceConnectionID; cbn; intros H1 H2; try discriminate H1; try discriminate H2; reflexivity|]). apply Forall_nil.
+  - do 2 eexists. vm_compute. reflexivity.
+Qed.
+Print Assumptions C11_ex_wire_values.
